@@ -134,14 +134,43 @@ Proof. exact no_header_single_stream. Qed.
 
 (* castable-but-unequal input schemas behave exactly like the declared one *)
 Theorem castable_schemas_like_exact : forall m,
-  cast_error m SInt32 = cast_error m SExact /\ cast_error m SNullable = cast_error m SExact
-  /\ cast_error m SExact = None.
+  cast_error m DeclX SInt32 = cast_error m DeclX SExact /\ cast_error m DeclX SNullable = cast_error m DeclX SExact
+  /\ cast_error m DeclX SExact = None.
 Proof. intro m. destruct m; repeat split. Qed.
 
 (* the decidable contract (spec_ok: layout of the streams, header, turn-call
    prefix, per-turn batches in order, one exception in last position, cancel hook,
    sentinel call answered) holds on the model for every input *)
-Theorem spec_holds_on_model : forall i, spec_ok i (model i) = true.
+Theorem spec_holds_on_model_call : forall i, spec_call_ok i (model_call i) = true.
+Proof. exact model_call_meets_spec. Qed.
+
+(* A call's inputs are cast against the input schema ITS OWN init handler declared
+   (a dynamic method declares it per call): inputs equal to the declared schema are
+   never refused, whatever other schemas exist. *)
+Theorem declared_schema_accepts_its_own_inputs : forall m,
+  cast_error m DeclX SExact = None /\ cast_error m DeclY SBadName = None /\ cast_error m DeclXZ SExtraCol = None
+  /\ (forall d s, cast_error Producer d s = None)
+  /\ cast_error Exchange DeclY SExact <> None /\ cast_error Exchange DeclXZ SExact <> None
+  /\ cast_error Exchange DeclX SBadName <> None /\ cast_error Exchange DeclX SExtraCol <> None.
+Proof. intro m. destruct m; repeat split; try discriminate; intros; reflexivity. Qed.
+
+(* Histories: several stream calls on one server. The response and call trace of
+   the n-th call are those of that call alone — they depend on no earlier call (its
+   mode, declared input schema, script, inputs) and on no later one. *)
+Theorem history_call_independent : forall h n i,
+  nth_error h n = Some i -> nth_error (model h) n = Some (model_call i).
+Proof. exact history_nth. Qed.
+
+Theorem history_compositional : forall h1 h2, model (h1 ++ h2) = model h1 ++ model h2.
+Proof. exact history_app. Qed.
+
+(* spec_ok on a history is exactly the per-call contract on every call's own observables *)
+Theorem history_spec_is_per_call : forall h os,
+  spec_ok h os = true <->
+  length h = length os /\ forall n i o, nth_error h n = Some i -> nth_error os n = Some o -> spec_call_ok i o = true.
+Proof. exact spec_ok_each. Qed.
+
+Theorem spec_holds_on_model : forall h, spec_ok h (model h) = true.
 Proof. exact model_meets_spec. Qed.
 
 (* ---- non-vacuity: the premises above are met by concrete streams ---------- *)
@@ -167,7 +196,8 @@ Example nonvacuous :
   (* header *)
   /\ (let i := {| i_mode := Producer; i_declares_header := true; i_x := 0%Z; i_reqid := str "r"; i_loglevel := [];
                   i_init_logs := []; i_init_fail := None; i_header := Some 42%Z; i_canceller := false;
-                  i_turns := [ex_turn AEmit 1%Z]; i_schema := SEmpty; i_items := [Tick] |} in
+                  i_turns := [ex_turn AEmit 1%Z]; i_schema := SEmpty; i_items := [Tick];
+                  i_dynamic := false; i_declared := DeclX |} in
       i_init_fail i = None /\ header_of i = Some 42%Z /\ length (call_streams i) = 2).
 Proof.
   split; [|split; [|split; [|split]]].
